@@ -12,10 +12,10 @@ EXTRA = {  # checks besides the seed's own property that are worth running again
     "C02-A": ["C01"], "C03-B": ["C04"], "C04-B": ["C14"], "C05-B": ["C06"], "C06-A": ["C05"], "C06-B": ["C07"],
     "C07-A": ["C18"], "C07-B": ["C18"], "C08-B": ["C07", "C18"], "C09-A": ["C19"], "C10-A": ["C11"], "C10-B": ["C13"],
     "C11-A": ["C10"], "C13-A": ["C10"], "C14-A": ["C02"], "C15-A": ["C04"], "C18-A": ["C07"], "C18-B": ["C07"],
-    "C19-A": ["C09"], "C04-E": ["C14"], "C04-F": ["C15"], "C07-G": ["C14"], "C18-E": ["C07"], "C01-F": ["C02"],
+    "C19-A": ["C09"], "C04-E": ["C14"], "C04-F": ["C15"], "C18-E": ["C07"], "C01-F": ["C02"],
     "C07-C": ["C18"], "C07-D": ["C18"], "C01-D": ["C02"], "C12-F": ["C11"], "C15-E": ["C04"], "C06-E": ["C05"],
     "C06-F": ["C05"], "C04-G": ["C14"], "C04-H": ["C14"], "C08-E": ["C18"], "C19-H": ["C09"], "C05-G": ["C06"],
-    "C18-G": ["C07"], "C08-H": ["C18"], "C08-G": ["C07"], "C17-G": ["C14"], "C09-G": ["C17"], "C20-H": ["C14"],
+    "C18-G": ["C07"], "C07-I": ["C14"], "C08-H": ["C18"], "C08-G": ["C07"], "C17-G": ["C14"], "C09-G": ["C17"], "C20-H": ["C14"],
     "C03-G": ["C14"], "C03-H": ["C01"], "C06-G": ["C05"], "C06-H": ["C05"], "C15-H": ["C04"], "C11-H": ["C10"],
 }
 
